@@ -337,20 +337,23 @@ def numberRows (start : Nat) (hl : List Nat) : List Line → List Row
   | [] => []
   | b :: bs => { num := start, marked := hl.contains start, body := b } :: numberRows (start + 1) hl bs
 
+/-- Everything `__rich_console__` does between `text.remove_suffix("\n")` and the numbering loop, as a function of the
+text it works on (`text` = the highlighted text AFTER `remove_suffix`). -/
+def linesOfText (rangePop : Bool) (o : Opts) (text : List Char) : Except Err (List Line) :=
+  -- `Text.split` builds every line with `Text(...)`, which strips BS/VT/FF/CR (nothing to strip without a lexer)
+  let lines := (textSplitC text (!rangePop && o.lineRange.isSome)).map stripCtl
+  let lines := match o.lineRange with
+    | some (_, e) => pySlice lines (lineOffset o) e
+    | none => lines
+  if o.indentGuides && !o.asciiOnly then indentGuides rangePop o.tabSize lines else .ok lines
+
 /-- The logical lines that get a number (after range selection and indent guides), before fitting. -/
 def selectedLines (skipRaises rangePop : Bool) (o : Opts) (found : Bool) (lex : List Char → List Line) (code : List Char) :
     Except Err (List Line) :=
   let src := expandTabs o.tabSize (shownCode o code)
   match highlight skipRaises found (lex src) src o.lineRange with
   | .error e => .error e
-  | .ok text =>
-    let text := removeSuffixNL text
-    -- `Text.split` builds every line with `Text(...)`, which strips BS/VT/FF/CR (nothing to strip without a lexer)
-    let lines := (textSplitC text (!rangePop && o.lineRange.isSome)).map stripCtl
-    let lines := match o.lineRange with
-      | some (_, e) => pySlice lines (lineOffset o) e
-      | none => lines
-    if o.indentGuides && !o.asciiOnly then indentGuides rangePop o.tabSize lines else .ok lines
+  | .ok text => linesOfText rangePop o (removeSuffixNL text)
 
 /-- The numbered branch as structured rows. -/
 def numberedRows (cw : Char → Nat) (skipRaises rangePop : Bool) (o : Opts) (found : Bool) (lex : List Char → List Line)
@@ -429,6 +432,25 @@ def tracebackOpts (lineno extra : Nat) (wordWrap indentGuides : Bool)
     highlightLines := [lineno], codeWidth := some 88, tabSize := 4,
     wordWrap := wordWrap, indentGuides := indentGuides,
     maxWidth := maxWidth, optNoWrap := optNoWrap, legacyWindows := legacyWindows, asciiOnly := asciiOnly, pad := pad }
+
+/-! ### one Syntax object rendered again and again
+
+`__rich_console__` assigns to no attribute of `self`, and `highlight` builds a new `Text` on every call: the object
+is the same before and after a render.  The state a render COULD leave behind is modelled explicitly, to say what
+purity rules out: `cacheText = true` is a variant that keeps the highlighted `Text` on the instance and hands the very
+same object out again — `text.remove_suffix("\n")` then crops the remembered text a little more on every render. -/
+
+/-- `n` renders of one object with unchanged attributes.  `hl` is what `highlight` returns for them, `rest` everything
+`__rich_console__` does after `remove_suffix` (a function of that text), `cache` the remembered text. -/
+def objRenders (cacheText : Bool) (rest : List Char → β) (hl : Except Err (List Char)) : Option (List Char) → Nat → List (Except Err β)
+  | _, 0 => []
+  | cache, n + 1 =>
+    match (if cacheText then cache else none) with
+    | some t => .ok (rest (removeSuffixNL t)) :: objRenders cacheText rest hl (some (removeSuffixNL t)) n
+    | none =>
+      match hl with
+      | .error e => .error e :: objRenders cacheText rest hl cache n
+      | .ok t => .ok (rest (removeSuffixNL t)) :: objRenders cacheText rest hl (if cacheText then some (removeSuffixNL t) else cache) n
 
 /-! ### `_render_syntax_error` (traceback.py:405-424): the offending line and the offset marker -/
 
